@@ -25,7 +25,7 @@ RULE = ("All 8 combinations of usechroot / setuid / setgid, each without a fault
 ASSUMPTIONS = [
     "system calls are recorded, not performed, except in the real-chroot child (only when euid == 0 and chroot(2) is permitted)",
     "'the working directory moved inside the new root' is read as: a chdir to an absolute path is the next privileged "
-    "step after chroot",
+    "step after chroot - unless the server was started from the root or from below it (then either is accepted)",
 ]
 
 PRIV = ("chroot", "chdir", "setgroups", "setregid", "setreuid")
@@ -208,7 +208,9 @@ def _predicates(case, trace, raised, server, root):
             if privs[0][1] != root:
                 F("chroot-wrong-dir", "chroot(%r), configured root is %r" % (privs[0][1], root))
             if len(pn) < 2 or pn[1] != "chdir":
-                F("no-chdir-after-chroot", "no chdir follows the chroot: the working directory stays outside the new root")
+                # started from the root itself or from below it, the working directory is inside the new root anyway
+                if case.get("cwd") not in ("root", "sub"):
+                    F("no-chdir-after-chroot", "no chdir follows the chroot: the working directory stays outside the new root")
             elif not (isinstance(privs[1][1], (str, bytes)) and os.fspath(privs[1][1]).startswith(os.sep if isinstance(privs[1][1], str) else b"/")):
                 F("chdir-relative", "chdir(%r) after chroot is not an absolute path inside the new root" % (privs[1][1],))
         if server is not None and server.config.get("pygopherd", "root") != "/":
